@@ -64,6 +64,8 @@ def check_fault(ctx, mname, method, direction, site, k, ref, kind="raise", event
         i = cb_n[0]
         cb_n[0] += 1
         if site == "callback" and i == k:
+            if kind == "interrupt":
+                raise KeyboardInterrupt()
             raise Boom("callback fault at step %d" % i)
     ev_n = [0]
 
@@ -71,6 +73,8 @@ def check_fault(ctx, mname, method, direction, site, k, ref, kind="raise", event
         i = ev_n[0]
         ev_n[0] += 1
         if site == "event" and i == k:
+            if kind == "interrupt":
+                raise KeyboardInterrupt()
             raise Boom("event fault at evaluation %d" % i)
         return y[0] - 0.8      # crosses during the run (non-terminal)
     exc = None
@@ -230,8 +234,17 @@ def run(ctx):
                     ctx.count("site:event")
                     ctx.nontrivial((mname, direction, "event", k))
             check_fault(ctx, mname, method, direction, "rhs", min(7, nf - 1), ref, kind="interrupt")
+            # a keyboard interrupt inside an event function and inside a callback (not an Exception: handlers must not be narrower)
+            for k in ([2, 11] if ctx.quick() else [0, 2, 5, 11, 20, 33]):
+                if check_fault(ctx, mname, method, direction, "event", k, ref, kind="interrupt"):
+                    ctx.count("site:event:interrupt")
+            check_fault(ctx, mname, method, direction, "callback", min(2, ref["steps"] - 1), ref, kind="interrupt")
             ctx.count("family:" + mname)
             ctx.sample(dict(method=mname, direction=direction, rhs_evaluations=nf, steps=ref["steps"], fault_positions=ks[:8]), limit=4)
+    # a fault inside a RETRY attempt (after a rejected attempt of the same step), then resume: the resumed run's dense pieces
+    # must have the right-hand side as end slopes (shared with C06)
+    import p_c06
+    p_c06.fault_in_retry(ctx, rng)
     # the exception TYPE must not matter: a right-hand side that raises a ValueError once (a common Python error) is a failing call too
     for mname, method in [("RK45CKSolver", I.RK45CKSolver), ("RK4Solver", I.RK4Solver), ("BackwardEuler", I.BackwardEuler)]:
         for direction in (1, -1):
